@@ -4,6 +4,7 @@ CONSTANTS
   ScenariosOf <- MCScenariosOf
   MaxRead = 3
   KF_FastInvertSkipsStopLine = FALSE
+  KF_ReaderByteCountIgnoresPartial = FALSE
   MaxLines = 7
   Bodies <- BodiesMX
   CtxMax = 3
